@@ -26,9 +26,10 @@ import (
 )
 
 // busy counts the goroutines (other than the caller) that run library or driver code and are not waiting.
+var dumpBuf = make([]byte, 2<<20)
+
 func busy() int {
-	buf := make([]byte, 4<<20)
-	buf = buf[:runtime.Stack(buf, true)]
+	buf := dumpBuf[:runtime.Stack(dumpBuf, true)]
 	n := 0
 	for i, blk := range strings.Split(string(buf), "\n\n") {
 		if i == 0 {
